@@ -608,9 +608,17 @@ def mon_c06(spec, run):
     rets = api_rets(tr, "sub_initialize")
     if not calls_:
         return bad
-    if not rets:
+    if len(rets) < len(calls_):
         return [("hang", "subunit.initialize() never returned")]
-    c0, r0 = calls_[0], rets[0]
+    inits = spec.get("inits") or [spec]
+    for k, (c0, r0) in enumerate(zip(calls_, rets)):
+        bad += _mon_c06_one(dict(inits[k], **{"class": inits[k]["class"], "_all_inits": inits}), run, c0, r0, first=(k == 0))
+    return bad
+
+
+def _mon_c06_one(spec, run, c0, r0, first=True):
+    bad = []
+    tr = run.trace
     sid = spec["expect_id"]
     subs = [c for c in calls(tr) if c0["seq"] < c["call"] < r0["seq"] and c["op"][0] in ("get", "put", "raw")]
     texts = [text_of(c["op"]) for c in subs]
@@ -626,7 +634,14 @@ def mon_c06(spec, run):
     vlines = [(s, t, x) for s, t, x in read_lines(tr) if x.startswith("@SYS:VERSION=") and vq_writes and s > vq_writes[0]["seq"]]
     if r0["exc"] is None:
         if not vlines or vlines[0][0] > r0["seq"]:
-            bad.append(("early-return", "initialize() returned before the reply to its SYS:VERSION synchronisation query had been received"))
+            # causal signature of the recorded finding: this object existed while ANOTHER initialisation's sync reply was being delivered,
+            # and its own initialize() was entered before the reader had finished delivering that line to every message callback
+            stale = [(rs, we) for rs, we, x in lines_by_read(tr) if x.startswith("@SYS:VERSION=") and rs < r0["seq"] and c0["seq"] < we
+                     and not (vq_writes and rs > vq_writes[0]["seq"])]
+            others = len(spec.get("_all_inits", [])) > 1
+            kind = "early-return-stale-sync-delivery" if (stale and others and spec.get("same_as") is None) else "early-return"
+            bad.append((kind, "initialize() returned before the reply to its SYS:VERSION synchronisation query had been received"
+                        + (" (the previous initialisation's sync reply was still being delivered to this object's message callback when initialize() cleared its event)" if kind != "early-return" else "")))
         else:
             barrier = vlines[0][0]
             # every value the device sent before the sync reply is readable; a later report for the same function may already have replaced it
@@ -639,8 +654,8 @@ def mon_c06(spec, run):
                     sent.setdefault(m.group(2), []).append((s, m.group(3)))
             attrs = r0.get("attrs", {})
             for fn, vals in sent.items():
-                if fn == "VERSION":
-                    continue
+                if fn == "VERSION" or (sid == "SYS" and fn == "MODELNAME"):
+                    continue            # a SYS:MODELNAME line may legitimately be withheld as a keep-alive reply (C13)
                 before = [v for s, v in vals if vdev is not None and s < vdev]
                 after = [v for s, v in vals if vdev is None or s >= vdev]
                 if not before:
@@ -658,7 +673,7 @@ def mon_c06(spec, run):
                 if not ok and fn in spec.get("readable", [fn]):
                     bad.append(("stale", f"after initialize() returned, {spec['class']}.{fn} reads {attrs.get(fn)!r}; the device had sent {before[-1]!r} before the sync reply"))
                     break
-        if any(e["k"] == "upd_cb" and e["seq"] < r0["seq"] for e in tr):
+        if any(e["k"] == "upd_cb" and e["seq"] < r0["seq"] and e.get("obj", 0) == c0.get("idx", 0) and (first or e["seq"] > c0["seq"]) for e in tr) and spec.get("same_as") is None:
             bad.append(("early-callback", "an update callback fired before initialize() had completed"))
     else:
         if r0["exc"] != "YncaInitializationFailedException":
@@ -724,7 +739,7 @@ def mon_c07(spec, run):
             if m and m.group(1) == s and q < r0["seq"]:
                 other.setdefault(m.group(2), []).append((q, m.group(3)))
         for fn, vals in sent.items():
-            if fn not in spec.get("readable", {}).get(s, [fn]) or fn == "VERSION":
+            if fn not in spec.get("readable", {}).get(s, [fn]) or fn == "VERSION" or (s == "SYS" and fn == "MODELNAME"):
                 continue            # (the sync line itself races with the return by design: "every value sent BEFORE it")
             allv = other.get(fn, vals)
             before = [v for q, v in allv if bseq is None or q < bseq]
@@ -752,7 +767,16 @@ def mon_c14(spec, run):
         return [("hang", f"YncaApi.initialize() never returned (fault: {spec.get('fault')}); threads blocked: {run.blocked}")]
     c0, r0 = api_calls(tr, "initialize")[0], rets[0]
     if r0["exc"] is None:
-        return bad          # the fault came too late to matter: initialisation completed
+        # normal return: legitimate only if the fault came too late to matter, i.e. every synchronisation query written during
+        # initialize() was answered and no link failure was read before it returned
+        vq = [e for e in tr if e["k"] == "write" and bytes.fromhex(e["data"]) == b"@SYS:VERSION=?\r\n" and e["seq"] < r0["seq"]]
+        vl = [x for x in read_lines(tr) if x[2].startswith("@SYS:VERSION=") and x[0] < r0["seq"]]
+        rf = [e for e in tr if e["k"] == "read_fault" and e["seq"] < r0["seq"]]
+        if rf:
+            bad.append(("returned-normally", f"initialize() returned normally although the link failed at t={rf[0]['t'] / 1e6:.3f}s, before it returned (accessors set: {sorted(r0['state'])})"))
+        elif len(vl) < len(vq):
+            bad.append(("returned-normally", f"initialize() returned normally although only {len(vl)} of its {len(vq)} synchronisation queries were answered (the device went silent); accessors set: {sorted(r0['state'])}"))
+        return bad
     if r0["exc"] not in LIB_EXC:
         bad.append(("wrong-exception", f"initialize() raised {r0['exc']}: {r0.get('msg')}, not one of the library's exceptions"))
     nsub = len([c for c in calls(tr) if c["op"][0] in ("get", "put", "raw") and c["call"] < r0["seq"]])
